@@ -2041,3 +2041,75 @@ C01_SPACE_N_TREATMENTS = dict(
     _SPACE_C01, func="n_unique_treatments", name="src_space_n_unique_treatments",
     attr_vars={"self.treatment_mapping": "self_treatment_mapping"}, params=[("self_treatment_mapping", _TRIPLE)], prims=_SPACE_NUMPY)
 ALL += [C01_SPACE_N_SAMPLES, C01_SPACE_N_TREATMENTS]
+
+# ---- C13 / C11: the shipped generators, smoothers, the random hold-out, SparseCover and the combination filter, linked to the
+# models of Model/Retro.v / RetroHoldout.v / RetroInit.v (the subjects of the C13 shape and C11 conservation theorems).  Conventions
+# of the MergeMin link above: a Screen = the list of its experiments (`screen_t`), a Plate = its selection vector (`bvec`), a
+# sample id = the sample's name (ids are ranks of sorted names) except in NPlatePerCellLine, whose dict is keyed by the integer
+# ids; an array of row numbers = `list nat`; the recorded answers of the Generator still unread = `ds`.
+_RG = dict(file="src/batchie/retrospective.py", out="SrcRetroGen.v", overload=True,
+           imports="Model.Encode Model.Screen Model.Retro Model.RetroHoldout Model.RetroInit Generated.SrcRetro")
+_ST = {"s": "screen_t"}
+_LEN_Z = ("len(__l)", "zlen {l}", "Z")
+
+# SampleSegregatingPermutationPlateGenerator._generate_plates
+C13_SAMPLE_SEG = dict(
+    _RG, cls="SampleSegregatingPermutationPlateGenerator", func="_generate_plates", name="src_sample_seg_generate_plates",
+    pyparams=["self", "screen", "rng"],
+    params=[("max_plate_size", "Z"), ("screen", "screen_t"), ("ds", "list draw")], returns="screen_t", return_state=["ds"],
+    vars={"plate_indices": "list list nat", "sample_id": "name", "sample_indices": "list nat", "n_plates": "Z",
+          "plates": "list list nat", "plate": "list nat", "plate_names": "list name", "idx": "Z", "indices": "list nat"},
+    prims=[
+        ("self.max_plate_size", "max_plate_size", "Z"),
+        ("__s.unique_sample_ids", "sample_names {s}", "list name", _ST),              # ids = ranks of the sorted names
+        ("np.arange(__s.size)[__s.sample_ids == __i]", "idx_where (in_sample {i}) {s}", "list nat", {"s": "screen_t", "i": "name"}),
+        ("math.ceil(len(__a) / float(__b))", "!ceil_div_float (zlen {a}) {b}", "Z", {"a": "list nat", "b": "Z"}),
+        _LEN_Z,
+        ("np.array_split(__a, __n)", "!array_split_z {a} {n}", "list list nat", {"a": "list nat", "n": "Z"}),
+        ("np.array([''] * __s.size, dtype=object)", "blank_names (length {s})", "list name", _ST),
+        (_SCREEN_LABELLED, "!screen_labelled {s} {l}", "screen_t", {"s": "screen_t", "l": "list name"}),
+    ],
+    expr_state_calls=[("rng.permutation(__a)", ["ds"], "permutation_ints {a} ds", "list nat", {"a": "list nat"})],
+    assign_effects=[("plate_names[__i] = f'generated_plate_{__k}'", "plate_names'", "!set_at {state} {i} (gen_name (Z.to_nat {k}))")],
+    ignore=["logger.info(__a)"],
+)
+
+# FixedSizeSmoother / OptimalSizeSmoother._smooth_plates
+_SIZE_PRIMS = [
+    ("__s.plates", "plates_of {s}", "list bvec", _ST),
+    ("__p.size", "plate_size {p}", "Z", {"p": "bvec"}),
+    ("__p.selection_vector", "{p}", "bvec", {"p": "bvec"}),
+    ("np.arange(__s.size)[__p.selection_vector]", "vec_positions {p}", "list nat", {"s": "screen_t", "p": "bvec"}),
+    ("np.isin(np.arange(__s.size), __i)", "vof_idx (length {s}) {i}", "bvec", {"s": "screen_t", "i": "list nat"}),
+    ("Plate(screen, __v)", "{v}", "bvec", {"v": "bvec"}),                  # a plate of `screen` is its selection vector
+    ("np.zeros(__s.size, dtype=bool)", "repeat false (length {s})", "bvec", _ST),
+    ("__a | __b", "vor {a} {b}", "bvec", {"a": "bvec", "b": "bvec"}),
+    ("__s.subset(__v)", "subset_of {s} {v}", "subset_t", {"s": "screen_t", "v": "bvec"}),
+    ("__s.to_screen()", "to_screen {s}", "screen_t", {"s": "subset_t"}),
+]
+_SIZE = dict(
+    _RG, func="_smooth_plates", pyparams=["self", "screen", "rng"], returns="screen_t", return_state=["ds"],
+    vars={"results": "list bvec", "plate": "bvec", "new_indices": "list nat", "new_selection_vector": "bvec",
+          "final_selection_vector": "bvec", "plate_sizes": "list Z", "i": "Z", "optimal_size": "Z"},
+    state_calls=[("rng.choice(__a, __n, replace=False)", ["ds"], "choice_ints {a} {n} ds", "list nat", {"a": "list nat", "n": "Z"})],
+    ignore=["logger.info(__a)"],
+)
+C13_FIXED_SIZE = dict(
+    _SIZE, cls="FixedSizeSmoother", name="src_fixed_size_smooth_plates",
+    params=[("fixed_size", "Z"), ("screen", "screen_t"), ("ds", "list draw")],
+    prims=[("self.plate_size", "fixed_size", "Z")] + _SIZE_PRIMS,
+)
+C13_OPTIMAL_SIZE = dict(
+    _SIZE, cls="OptimalSizeSmoother", name="src_optimal_size_smooth_plates", unused_params=["self"],
+    params=[("screen", "screen_t"), ("ds", "list draw")],
+    prims=_SIZE_PRIMS + [
+        ("np.sort(np.array(__l))", "sort_z {l}", "list Z", {"l": "list Z"}),
+        ("np.argmax(__a)", "!argmax_z {a}", "Z", {"a": "list Z"}),
+        ("np.arange(__n)", "zrange {n}", "list Z", {"n": "Z"}),
+        ("__a * __b", "vmul_z {a} {b}", "list Z", {"a": "list Z", "b": "list Z"}),
+        ("__n - __v", "rsub_z {n} {v}", "list Z", {"n": "Z", "v": "list Z"}),
+        ("__a[__i]", "!list_get {a} {i}", "Z", {"a": "list Z", "i": "Z"}),
+        _LEN_Z,
+    ],
+)
+ALL += [C13_SAMPLE_SEG, C13_FIXED_SIZE, C13_OPTIMAL_SIZE]
